@@ -165,7 +165,7 @@ func newTwoChain(r *core.Run, p *tcProfile) (*twoChain, *core.Violation) {
 		tc.initialL1[d] = tot
 	}
 	// other rollups' bridges that exist before ours
-	for i := 0; i < decoys; i++ {
+	for i, tries := 0, 0; i < decoys && tries < 8; tries++ {
 		save := tc.L1.p.W
 		tc.L1.p.W = map[string]int{"create": 1}
 		dm, kind, desc := tc.L1.genOp(tc.L1.m.clone(), blockCtx{Height: tc.L1.n.Height() + 1, Time: tc.L1.now})
@@ -173,6 +173,7 @@ func newTwoChain(r *core.Run, p *tcProfile) (*twoChain, *core.Violation) {
 		if v := tc.blockL1([]memTx{tc.mk(1, []sdk.Msg{dm}, kind, "another rollup: "+desc)}, time.Second, ""); v != nil {
 			return nil, v
 		}
+		i = len(tc.L1.m.Bridges) // a refused creation (half-filled form) is simply tried again
 	}
 	if tc.L1.m.NextBridgeID != tc.bridge {
 		panic(core.Abort{Reason: "decoy-bridge-not-created"})
